@@ -168,6 +168,12 @@ static Outcome encode_to_sink(const std::string& json_text, size_t capacity, int
     return o;
 }
 
-const FormatApi& json_api() { static FormatApi a{"json", true, run, entry, push, encode, seeds, encode_to_sink}; return a; }
+static Outcome encoder_nest(int ckind, size_t depth, int limit) {
+    auto opt = json_options{}.max_nesting_depth(limit);
+    if (depth & 1) return encoder_nest_impl<json_string_encoder, std::string, json_options>(ckind, depth, opt, false);
+    return encoder_nest_impl<compact_json_string_encoder, std::string, json_options>(ckind, depth, opt, false);
+}
+
+const FormatApi& json_api() { static FormatApi a{"json", true, run, entry, push, encode, seeds, encode_to_sink, encoder_nest}; return a; }
 
 } // namespace iosim
